@@ -147,6 +147,7 @@ def build_walk_world(ctx, w, parents):
     k = len(parents)
     root = w.add(0, isfile=False, isdir=True, hasext=z3.Bool('hasext0'), ext_typ=z3.Bool('ext0'), utf8name=z3.Bool('utf8name0'),
                  name=_sym_name(ctx, 0), readable=False, content=OStr(('c', 0)), err=False, chg=False, wfail=True)
+    root['walkerr'] = z3.Bool('walkerr0')          # the directory given does not exist / cannot be listed
     for i in range(1, k + 1):
         s = file_slot(w, i, parent=parents[i - 1])
         s['hasext'] = z3.Bool('hasext%d' % i)
@@ -258,7 +259,7 @@ def explore(S, props, K, walkK, levels=(False, False)):
                      parents=list(parents) if parents else None, slots={})
             for i, s in w.slots.items():
                 e = {}
-                for k in ('readable', 'err', 'chg', 'wfail', 'isfile', 'isdir', 'ext_typ', 'hasext', 'utf8name', 'linkfile'):
+                for k in ('readable', 'err', 'chg', 'wfail', 'isfile', 'isdir', 'ext_typ', 'hasext', 'utf8name', 'linkfile', 'walkerr'):
                     if k in s:
                         e[k] = model_bool(mdl, s[k])
                 if 'name' in s:
@@ -289,7 +290,9 @@ def explore(S, props, K, walkK, levels=(False, False)):
         if mode == 'walk':
             hr = hidden(w, 0)
             ur = b_or(*[b_and(e['attempt'], b_not(w.slots[sl]['readable'])) for sl, e in expected.items()])
-            roles = [(':hidden-root', hr), (':unreadable-file', b_and(b_not(hr), ur)), ('', b_and(b_not(hr), b_not(ur)))]
+            wr = w.slots[0].get('walkerr', False)
+            roles = [(':unlistable-root', wr), (':hidden-root', b_and(b_not(wr), hr)), (':unreadable-file', b_and(b_not(wr), b_not(hr), ur)),
+                     ('', b_and(b_not(wr), b_not(hr), b_not(ur)))]
         else:
             roles = [('', True)]
 
@@ -441,13 +444,18 @@ def explore(S, props, K, walkK, levels=(False, False)):
             for dir_given in ((True, False) if k <= 1 else (True,)):
                 def body_walk(ctx, parents=parents, dir_given=dir_given):
                     w, m, args, fl = base(ctx, 'walk', len(parents), parents, dir_given)
+                    if not dir_given:
+                        ctx.assume(z3.Not(w.slots[0]['walkerr']))       # the current directory exists
                     describe = describe_factory(w, fl, 'walk', parents)
                     o = run_main(S, ctx, m, f_main, args)
                     S.absorb(m)
                     exp = {}
+                    werr = w.slots[0]['walkerr']
+                    # an unlistable root is an I/O error of its own; nothing below it is visited then
+                    exp[0] = dict(attempt=False, changed=False, write=False, ioerr=werr, print=False, erroneous=False)
                     for i in range(1, len(parents) + 1):
                         s = w.slots[i]
-                        el = eligible_walk(w, i)
+                        el = b_and(b_not(werr), eligible_walk(w, i))
                         okc = b_and(el, s['readable'], b_not(s['err']))
                         wr = b_and(okc, s['chg'])
                         exp[i] = dict(attempt=el, changed=wr, write=wr,
@@ -558,7 +566,10 @@ def replay_native(S, info):
             if not slots['0'].get('utf8name', True):
                 rootname = 'root'
             paths[0] = os.path.join(tmp, rootname)
-            os.makedirs(paths[0])
+            if slots['0'].get('walkerr'):
+                parents = []            # the directory given does not exist
+            else:
+                os.makedirs(paths[0])
             for i, p in enumerate(parents, 1):
                 e = slots[str(i)]
                 c0 = e['name0'] if e.get('utf8name', True) else 'n'
@@ -651,6 +662,8 @@ def confirm(S, prop, label, info):
         return slots[str(i if i < 1000 else i - 1000)]
     chg = {i: elig[i] and sl(i).get('readable', True) and not sl(i).get('err') and sl(i).get('chg') for i in ids}
     io = {i: elig[i] and not sl(i).get('readable', True) for i in ids}
+    if mode == 'walk' and slots['0'].get('walkerr'):
+        io['root'] = True           # the directory given does not exist: an I/O error that must show in the exit status
     if mode == 'stdin':
         e = slots['100']
         chg = {100: e.get('readable', True) and not e.get('err') and e.get('chg')}
